@@ -38,6 +38,7 @@ type fact struct {
 	argTouched      bool // touches guarded state of an argument of the same type
 	argLocked       bool
 	unknown         bool
+	reentrant       bool // holds the receiver's lock and calls a method of the receiver that takes it again
 	lockReleasedMid bool
 }
 
@@ -247,6 +248,45 @@ var readerMethods = map[string]bool{
 	"WriteTo": true, "Export": true,
 }
 
+// callsLocking: does node n call, on receiver v, a method of typ that takes the receiver's lock
+// (directly, or through helpers that do not)? Taking a sync.RWMutex again while holding it blocks
+// for ever in exclusive mode, and in shared mode as soon as a writer is waiting in between.
+func (a *analyzer) callsLocking(typ, v string, n ast.Node, depth int, seen map[string]bool) bool {
+	if n == nil || depth > 4 {
+		return false
+	}
+	found := false
+	ast.Inspect(n, func(x ast.Node) bool {
+		call, ok := x.(*ast.CallExpr)
+		if !ok || found {
+			return !found
+		}
+		sel, ok := call.Fun.(*ast.SelectorExpr)
+		if !ok {
+			return true
+		}
+		id, ok := sel.X.(*ast.Ident)
+		if !ok || id.Name != v {
+			return true
+		}
+		m := a.methods[typ+"."+sel.Sel.Name]
+		if m == nil || m.decl.Body == nil || seen[typ+"."+sel.Sel.Name] {
+			return true
+		}
+		seen[typ+"."+sel.Sel.Name] = true
+		if lockedAtTop(m.decl.Body, m.recv) != 0 {
+			found = true
+			return false
+		}
+		if a.callsLocking(typ, m.recv, m.decl.Body, depth+1, seen) {
+			found = true
+			return false
+		}
+		return true
+	})
+	return found
+}
+
 func markLHS(e ast.Expr, lhs map[ast.Expr]bool) {
 	switch x := e.(type) {
 	case *ast.SelectorExpr:
@@ -289,6 +329,34 @@ func main() {
 			a.methods[typ+"."+fd.Name.Name] = &method{typ, fd.Name.Name, fd, recv}
 		}
 	}
+	// Guarded state is not only what the table above names: every field of the receiver that some
+	// method within the property's scope assigns (directly, element-wise or by ++/--) is mutable
+	// shared state too -- e.g. a scratch buffer or a cache added later. The deserialisers (Import,
+	// ReadFrom) are outside the property's operation list and do not make a field guarded.
+	for _, m := range a.methods {
+		if guarded[m.typ] == nil || m.decl.Body == nil || m.recv == "" || m.name == "Import" || m.name == "ReadFrom" {
+			continue
+		}
+		lhs := map[ast.Expr]bool{}
+		ast.Inspect(m.decl.Body, func(x ast.Node) bool {
+			switch st := x.(type) {
+			case *ast.AssignStmt:
+				for _, l := range st.Lhs {
+					markLHS(l, lhs)
+				}
+			case *ast.IncDecStmt:
+				markLHS(st.X, lhs)
+			}
+			return true
+		})
+		for e := range lhs {
+			if sel, ok := e.(*ast.SelectorExpr); ok {
+				if id, ok := sel.X.(*ast.Ident); ok && id.Name == m.recv && sel.Sel.Name != "lock" {
+					guarded[m.typ][sel.Sel.Name] = true
+				}
+			}
+		}
+	}
 	var facts []fact
 	for _, m := range a.methods {
 		if guarded[m.typ] == nil || !ast.IsExported(m.name) {
@@ -301,6 +369,9 @@ func main() {
 			continue
 		}
 		f.locked = lockedAtTop(m.decl.Body, m.recv)
+		if f.locked != 0 && a.callsLocking(m.typ, m.recv, m.decl.Body, 0, map[string]bool{m.typ + "." + m.name: true}) {
+			f.reentrant = true
+		}
 		reads, writes := map[string]bool{}, map[string]bool{}
 		a.touches(m.typ, m.recv, m.decl.Body, reads, writes, 0, map[string]bool{m.typ + "." + m.name: true})
 		for k := range reads {
@@ -367,6 +438,8 @@ func main() {
 		switch {
 		case f.unknown:
 			lk = "UnknownLocking"
+		case f.reentrant:
+			lk = "Reentrant"
 		case f.lockReleasedMid:
 			lk = "ReleasedEarly"
 		case f.locked == 1:
